@@ -321,8 +321,7 @@ def closeMask (deps : List (Comp × List Comp)) (m : List Comp) : List Comp :=
 
 /-- `EntityManager::getArchetype(mask)`: the archetype of the dependency-closed mask — an existing one, or a
 new one whose chunk size is resolved from the functions applied to the CLOSED mask -/
-def State.getArch (s : State) (m0 : List Comp) : Except (Nat × Nat) (State × Nat) :=
-  let m := closeMask s.deps m0
+def State.getArchClosed (s : State) (m : List Comp) : Except (Nat × Nat) (State × Nat) :=
   match findArch s.archs m with
   | some ai => .ok (s, ai)
   | none =>
@@ -333,13 +332,17 @@ def State.getArch (s : State) (m0 : List Comp) : Except (Nat × Nat) (State × N
                                             cst := fun _ _ => nullVer, gst := fun _ => nullVer }] },
            s.archs.length)
 
+def State.getArch (s : State) (m0 : List Comp) : Except (Nat × Nat) (State × Nat) :=
+  s.getArchClosed (closeMask s.deps m0)
+
 /-- `externalMove`: push into the target, then `remove` from the source. The two archetypes differ, so the
 model's order (leave, then arrive) yields the same state. When the closed target mask is the entity's own
-archetype (removing a dependent whose master is present) nothing happens. -/
-def State.moveTo (s : State) (ai i : Nat) (e : Ent) (m : List Comp) : State × Out :=
+archetype nothing moves: `removeComponent` of a dependent whose master is present returns silently, `assign`
+of a component the entity already has (and whose dependencies it has) throws "… to itself" (`same`). -/
+def State.moveTo (s : State) (ai i : Nat) (e : Ent) (m : List Comp) (same : Out) : State × Out :=
   match s.getArch m with
   | .error (mx, mn) => (s, .error mx mn)
-  | .ok (s1, aj) => if aj = ai then (s1, .noop) else ((s1.depart ai i).arrive aj e, .ok)
+  | .ok (s1, aj) => if aj = ai then (s1, same) else ((s1.depart ai i).arrive aj e, .ok)
 
 def State.step (s : State) : Op → State × Out
   | .update => (s.worldUpdate, .none)
@@ -370,8 +373,7 @@ def State.step (s : State) : Op → State × Out
     | some (ai, i) =>
       match s.archs[ai]? with
       | none => (s, .noop)
-      | some a =>
-        if a.mask.contains c then (s, .selfMove) else s.moveTo ai i e (insertSorted c a.mask)
+      | some a => s.moveTo ai i e (insertSorted c a.mask) .selfMove
   | .remove e c =>
     match locate s.archs e with
     | none => (s, .noop)
@@ -379,7 +381,7 @@ def State.step (s : State) : Op → State × Out
       match s.archs[ai]? with
       | none => (s, .noop)
       | some a =>
-        if a.mask.contains c then s.moveTo ai i e (a.mask.filter (· ≠ c)) else (s, .noop)
+        if a.mask.contains c then s.moveTo ai i e (a.mask.filter (· ≠ c)) .noop else (s, .noop)
   | .destroyNow e =>
     match locate s.archs e with
     | none => (s, .noop)
@@ -399,8 +401,9 @@ def run (cfg : Config) (ops : List Op) : State := (init cfg).exec ops
 A body may obtain components for writing / mark them dirty (immediately, stamped with the live — already
 bumped — version) and may create / assign / remove / destroy through the command buffer, which is applied
 at `unlock()`, still at the same version. So a run with a body is the run followed by the body's immediate
-accesses and then its deferred commands (each entity gets at most one deferred command per body, so every
-command pack is a single command with its unlocked meaning). A run that selects nothing never calls the body. -/
+accesses and then its deferred commands (each entity gets at most one deferred command per body and none
+is addressed to an entity the body itself creates, so every command pack is a single command with its
+unlocked meaning). A run that selects nothing never calls the body. -/
 
 inductive HOp where
   | plain (o : Op)
@@ -411,15 +414,23 @@ def Op.immediate : Op → Bool
   | .getMut _ _ | .markDirty _ _ | .getConst _ _ => true
   | _ => false
 
-/-- the operations a body contributes, in the order they take effect -/
-def bodyOrder (body : List Op) : List Op :=
-  body.filter (·.immediate) ++ body.filter (fun o => !o.immediate)
+/-- the entity a deferred command is addressed to -/
+def Op.target : Op → Option Ent
+  | .assign e _ | .remove e _ | .destroyNow e => some e
+  | _ => none
+
+/-- the operations a body contributes, in the order they take effect. `n` = number of entities created
+before the body started: a deferred command addressed to an entity that the same body creates is outside the
+contract (the handle is not valid while locked) and is dropped. -/
+def bodyOrder (n : Nat) (body : List Op) : List Op :=
+  body.filter (·.immediate) ++
+    body.filter (fun o => !o.immediate && (match o.target with | some e => decide (e < n) | none => true))
 
 def State.hstep (s : State) : HOp → State × Out
   | .plain o => s.step o
   | .runDo j body =>
     let r := s.jobRun j
-    if r.2.isEmpty then (r.1, .ran []) else (r.1.exec (bodyOrder body), .ran r.2)
+    if r.2.isEmpty then (r.1, .ran []) else (r.1.exec (bodyOrder r.1.nextEnt body), .ran r.2)
 
 def State.hexec (s : State) (hops : List HOp) : State := hops.foldl (fun s h => (s.hstep h).1) s
 
